@@ -15,7 +15,11 @@ Project specs
       edges     call edges [i,j] with i<j (every DAG on n labelled nodes is such a set)
       layout    one of LAYOUTS (file / module placement), see `_layout`
       imp       import style for calls into another module: 'only' | 'bare' | 'renamed'
-      features  list of project features, see FEATURES / `applicable_features`
+      features  list of project features, see FEATURES / `applicable_features`:
+                typebound j | generic j | modvar i j | selfrec j | cycle j k | usespell 1|2 | intrinsic | external i (call of an
+                undefined procedure) | inlineif i j | cycle2 j (j alone RECURSIVE, each of its >=2 callees calls it back: two
+                cycles through one routine) | shadow i j (host module of i imports a same-named procedure from a decoy
+                module, i itself imports j: the inner import wins) | extmod i (USE of a module outside the search path)
       casing    list of [entity, site]: that name is spelled UPPER-case at that site (C23);
                 entity = 'p<i>' | 'm:<modkey>' | 't<j>' | 'b<j>' | 'g<j>' ; site = 'def' | 'use@<i>' | 'cfg' | 'seed'
       names     index into NAME_POOLS (surface spelling only; chosen from VERIF_SEED)
@@ -85,7 +89,8 @@ NAME_POOLS = [
 LAYOUTS = ['free', 'ownmod', 'shared', 'twomod', 'mixed', 'mixed2', 'allmod', 'onemod', 'bundle_mods',
            'bundle_mixed', 'bundle_free', 'onefile', 'split', 'F90', 'casedirs', 'casesame']
 IMPORT_STYLES = ['only', 'bare', 'renamed']
-FEATURES = ['typebound', 'generic', 'modvar', 'selfrec', 'cycle', 'usespell', 'intrinsic', 'external', 'inlineif']
+FEATURES = ['typebound', 'generic', 'modvar', 'selfrec', 'cycle', 'usespell', 'intrinsic', 'external', 'inlineif',
+            'cycle2', 'shadow', 'extmod']
 
 ProcInfo = namedtuple('ProcInfo', 'idx name modkey module file item calls recursive')
 ModInfo = namedtuple('ModInfo', 'key name file procs')
@@ -254,6 +259,9 @@ class Project:
         modvars = {(f[1], f[2]) for f in self.feat('modvar')}
         externals = {f[1] for f in self.feat('external')}
         inlineif = {(f[1], f[2]) for f in self.feat('inlineif')}
+        cycle2 = {f[1] for f in self.feat('cycle2')}
+        shadows = {(f[1], f[2]) for f in self.feat('shadow')}
+        extmods = {f[1] for f in self.feat('extmod')}
         usespell = max([f[1] for f in self.feat('usespell')] + [0])
         if len(self.features) != len(set(self.features)) or len(self.feat('usespell')) > 1:
             return self._fail('duplicate feature')
@@ -272,6 +280,19 @@ class Project:
             rec_nodes |= {j, k}
         if any(not 1 <= j < n for j in selfrec):
             return self._fail('selfrec target')
+        # cycle2: procedure j alone is RECURSIVE and every one of its (>= 2) callees calls it back
+        for j in cycle2:
+            if not 0 <= j < n or len([k for (a, k) in edges if a == j]) < 2 or (selfrec | {x for c in cycles for x in c}):
+                return self._fail('cycle2 needs a procedure with >= 2 callees and no other recursion feature')
+            rec_nodes.add(j)
+        # shadow: caller i (module procedure) imports callee j by name while its host module imports a
+        # same-named procedure from a decoy module; the inner import hides the host-associated one
+        for i, j in shadows:
+            if (i, j) not in edges or modkeys[i] is None or modkeys[j] is None or modkeys[i] == modkeys[j] \
+                    or self.spec['imp'] != 'only' or j in tb | gen:
+                return self._fail('shadow needs a module procedure calling a procedure of another module with ONLY-imports')
+        if len(shadows) > 1 or any(not 0 <= i < n for i in extmods):
+            return self._fail('shadow/extmod arguments')
         if rec_nodes & (tb | gen):
             return self._fail('recursion on a typebound/generic procedure')
         for i, j in modvars:
@@ -288,6 +309,10 @@ class Project:
             guarded[j].append(j)
         for j, k in cycles:
             guarded[k].append(j)
+        for j in cycle2:
+            for (a, k) in sorted(edges):
+                if a == j:
+                    guarded[k].append(j)
         # ---- module dependency relation must be acyclic (otherwise not valid Fortran)
         mdeps = set()
         for i in range(n):
@@ -408,6 +433,14 @@ class Project:
             if i in tb:
                 mname = self.modules[mk_i].name
                 deps.append(Dep(f'{mname}#{self.base(f"t{i}")}', 'must', 'typeuse:selfarg', None, False))
+            extmod_use = []
+            if i in extmods:
+                # a module that is not in the search path: an ExternalItem standing for a module
+                xm = f'{pool["ext"]}_mod'
+                extmod_use.append(f'  use {xm}, only: {pool["ext"]}_var')
+                body.append(f'  n = n + {pool["ext"]}_var')
+                deps.append(Dep(xm, 'may', 'module:extmod', None, True))
+                self.use_statements += 1
             # ---- text
             use_lines = []
             if i == 0 and self.feat('intrinsic'):
@@ -421,6 +454,7 @@ class Project:
                     syms = ', '.join(r if l is None else f'{l} => {r}' for l, r in what)
                     use_lines.append(f'  {head}, only: {syms}')
                 self.use_statements += 1
+            use_lines += extmod_use
             pname = self.at(f'p{i}', 'def')
             args = '(self, n)' if i in tb else '(n)'
             rec = 'recursive ' if i in rec_nodes else ''
@@ -461,9 +495,26 @@ class Project:
                 [Dep(item_of[j], 'must', 'modproc', self.base(f'p{j}'), False)], None)
         # ---- module and file texts
         unit_text = {}      # (relpath) -> list of (sortkey, text)
+        self.decoy_files = []
+        host_import = {}
+        for i, j in shadows:
+            pj = pool['procs'][j]
+            dmod, dfile = f'{pj}_alt_mod', f'{pj}_alt_mod.f90'
+            unit_text.setdefault(dfile, []).append((0, f'module {dmod}\n  implicit none\ncontains\n  subroutine {pj}(n)\n'
+                                                    f'    integer, intent(inout) :: n\n    n = n - 1000\n  end subroutine {pj}\n'
+                                                    f'end module {dmod}\n'))
+            self.decoy_files.append(dfile)
+            self.items[dmod] = ItemInfo('Module', dmod, dfile, [], None)
+            self.items[f'{dmod}#{pj}'] = ItemInfo('Procedure', f'{dmod}#{pj}', dfile, [], None)
+            host_import[modkeys[i]] = f'  use {dmod}, only: {pj}'
+            # the host module imports a procedure by name: module item of the decoy is don't-care (qualified import)
+            self.items[self.modules[modkeys[i]].name].deps.append(Dep(dmod, 'may', 'module:only', None, False))
+            self.use_statements += 1
+        self.decoy_names = {pool['procs'][j] for _, j in shadows}
         for mk, m in self.modules.items():
             mname = self.at(f'm:{mk}', 'def')
-            lines = [f'module {mname}', '  implicit none', f'  integer :: {self.base("v:" + mk)} = 0']
+            lines = [f'module {mname}'] + ([host_import[mk]] if mk in host_import else []) + \
+                    ['  implicit none', f'  integer :: {self.base("v:" + mk)} = 0']
             for j in m.procs:
                 if j in tb:
                     ty = self.at(f't{j}', 'def')
@@ -529,10 +580,14 @@ class Project:
                 f"  write(*,'(i0)') n\nend program main\n")
 
     def stub_external(self):
+        """Harness-owned definitions of what the project deliberately leaves undefined (never shown to Loki)."""
+        e = self.pool['ext']
+        out = ''
+        if self.feat('extmod'):
+            out += f'module {e}_mod\n  implicit none\n  integer :: {e}_var = 0\nend module {e}_mod\n'
         if self.feat('external'):
-            e = self.pool['ext']
-            return f'subroutine {e}(n)\n  integer, intent(inout) :: n\n  n = n - 1\nend subroutine {e}\n'
-        return ''
+            out += f'subroutine {e}(n)\n  integer, intent(inout) :: n\n  n = n - 1\nend subroutine {e}\n'
+        return out
 
     def compile_order(self):
         """Files ordered so that module providers precede their users."""
@@ -570,12 +625,12 @@ class Project:
         from vf import gf
         with gf.Build(base=workdir, prefix='bg_') as b:
             names = []
-            for rel in self.compile_order():
+            if self.stub_external():
+                b.write('aa_ext_stub.f90', self.stub_external())
+                names.append('aa_ext_stub.f90')
+            for rel in self.decoy_files + [f for f in self.compile_order() if f not in self.decoy_files]:
                 b.write(rel, self.files[rel])
                 names.append(rel)
-            if self.stub_external():
-                b.write('zz_ext_stub.f90', self.stub_external())
-                names.append('zz_ext_stub.f90')
             b.write('zz_main.f90', self.driver_program())
             names.append('zz_main.f90')
             ok, err = b.fcompile(names)
@@ -624,9 +679,13 @@ def applicable_features(spec):
         for j in range(n):
             if i < n and i != j:
                 cands.append(('modvar', i, j))
-    cands += [('usespell', 1), ('usespell', 2), ('intrinsic',), ('external', 0)]
+    cands += [('usespell', 1), ('usespell', 2), ('intrinsic',), ('external', 0), ('extmod', 0)]
     if n > 1:
-        cands.append(('external', n - 1))
+        cands += [('external', n - 1), ('extmod', n - 1)]
+    for j in range(n):
+        cands.append(('cycle2', j))
+    for (i, j) in edges:
+        cands.append(('shadow', i, j))
     if edges:
         cands.append(('inlineif',) + tuple(edges[0]))
     out, seen = [], set()
@@ -674,7 +733,8 @@ def enumerate_projects(nmax, layouts=None, imps=None, feature_budget=1, names=0,
 
 
 # ----------------------------------------------------------------------------- configurations
-BASE_DEFAULT = dict(role='kernel', mode='base', expand=True, strict=True, enable_imports=False)
+# no `strict` key: the documented default (True) applies; `strict1` spells it out, `strict0` switches it off
+BASE_DEFAULT = dict(role='kernel', mode='base', expand=True, enable_imports=False)
 LIST_KINDS = ('disable', 'block', 'ignore')
 
 
@@ -732,6 +792,7 @@ def config_menu(project, process=False):
     menu.append(('expand0', [('default', 1)] + [(i, 1) for i in range(n)]))
     menu.append(('enable_imports', [(True, 1)]))
     menu.append(('strict0', [(True, 1)]))
+    menu.append(('strict1', [(True, 1)]))
     menu.append(('full_parse', [(True, 1)]))
     if process:
         menu.append(('role', [((j, 'driver'), 1) for j in range(1, n)]))
@@ -743,6 +804,8 @@ def _cspec_ok(project, cspec):
     sw = {s for s, _ in cspec}
     # the documentation does not say how a default-level and a routine-level list of the same kind
     # combine (replace or merge): such configurations are outside the demanded space
+    if 'strict0' in sw and 'strict1' in sw:
+        return False
     for kind in ('block', 'ignore'):
         if f'{kind}@default' in sw and (f'{kind}@r0' in sw or f'{kind}@r1' in sw):
             return False
@@ -809,6 +872,8 @@ def make_config(project, cspec):
             default['enable_imports'] = True
         elif sw == 'strict0':
             default['strict'] = False
+        elif sw == 'strict1':
+            default['strict'] = True
         elif sw == 'full_parse':
             full_parse = True
         elif sw == 'role':
@@ -933,6 +998,9 @@ def reference_closure(project, made):
             seeds.append(it)
     # a seed that is itself named by the global disable list: the documentation does not say who wins
     c.dontcare = any(ref_match(e, it) for it in seeds for e in rc.default.get('disable', []))
+    # a plain seed name that two modules define (feature `shadow`): which one is meant is not documented
+    if any('#' not in sd and sd in getattr(project, 'decoy_names', ()) for sd in rc.seeds):
+        c.dontcare = True
     for it in seeds:
         status[it] = 'must'
         ign.setdefault(it, set()).add(False)
@@ -956,8 +1024,8 @@ def reference_closure(project, made):
                     why_not.setdefault(t, set()).update(hit)
                     continue
                 if d.external:
-                    if rc.strict:
-                        c.may_raise = True
+                    if rc.strict and d.how != 'module:extmod':
+                        c.may_raise = True      # an undefined *procedure* may be refused under strict
                     st = 'may'
                 elif (x, t) in weak_prune:
                     st = 'may'
@@ -1189,7 +1257,7 @@ def _drop_proc(pspec, cspec):
             return None
     for s, v in cspec:
         flat = v if isinstance(v, list) else [v]
-        if s in ('enable_imports', 'strict0', 'full_parse'):
+        if s in ('enable_imports', 'strict0', 'strict1', 'full_parse'):
             continue
         if last in [x for x in flat if isinstance(x, int) and not isinstance(x, bool)]:
             return None
